@@ -210,3 +210,7 @@ class GenericSubTLV(SubTLV):
 
     def json(self) -> str:
         return f'"unknown-subtlv-{self._subtype}": "{hexstring(self._packed)}"'
+
+    def __str__(self) -> str:
+        # without it the text rendering of the attribute showed the memory address of this object
+        return f'unknown-subtlv-{self._subtype} {hexstring(self._packed)}'
